@@ -80,6 +80,34 @@ class Run(object):
     def undecide(self, name, reason):
         self.undecided.append({"obligation": name, "reason": reason})
 
+    def confirm_or_undecide(self, refuted, replay, is_rule=lambda name: "/structural/" in name):
+        """
+        Policy for SHAPE rules (rule engine over the ast): a rule that no longer matches is not by itself a violation --
+        the code may have been rewritten in an equivalent way.  `replay(name)` runs the real code on targeted inputs for
+        the clause the rule carries and returns a failing-input dict or None.  Confirmed -> stays refuted, the input is
+        attached; not confirmed -> the obligation becomes undecided (exit 2, never a VIOLATION line).
+        -> (still refuted list, {name: failing input})
+        """
+        keep, inputs = [], {}
+        for o in refuted:
+            name = o["name"] if isinstance(o, dict) else o[0]
+            if not is_rule(name):
+                keep.append(o)
+                continue
+            try:
+                fi = replay(name)
+            except Exception as ex:  # a replay that cannot run confirms nothing
+                fi = None
+                self.assumptions.add("targeted replay for %s could not run: %s: %s" % (name, type(ex).__name__, str(ex)[:80]))
+            if fi is not None:
+                inputs[name] = fi
+                keep.append(o)
+            elif name in self.obligations:
+                ob = self.obligations[name]
+                ob["status"] = UNDECIDED
+                ob["detail"] = "rule no longer matches (%s) and the targeted replay on the real code found no failing input: undecided, not a violation" % (ob.get("detail") or "")[:300]
+        return keep, inputs
+
     # ---------------------------------------------------------------- findings
 
     def match_finding(self, key):
